@@ -54,7 +54,7 @@ func c02(e *Env) {
 	r.Explain("Oracle: an independent interpreter (internal/ref, own integer rendering, padding, checksums; shares no code with /repo/codec) of the schema pinned at the baseline commit (/verif/schema/*.json, one byte order per module, no per-field override). Encode: lib bytes == ref bytes, and lib errors exactly when ref has no rendering (unregistered key with a body the encoder must fill). Decode: same accept/reject, same number of bytes consumed, lib message ≡ ref message. A change made consistently to Encode and Decode (width, field order, byte order, pad byte/side, prefix width, key→type) disagrees with ref although every repository test still passes.")
 	r.Assume("the schema snapshot is faithful to the pinned commit (extracted from Encode bodies, cross-checked against Decode bodies; see schema/PROVENANCE.md); a deviation from the real exchange .pdsl that was already self-consistent at the pinned commit is inherited", "values above a prefix limit are C18's business and are skipped here")
 	types := e.Types()
-	n := e.N(500, 15000)
+	n := e.N(500, 80000)
 	feats := newFeatAcc()
 	var programs int
 	e.Par(len(types), func(i int) {
